@@ -105,6 +105,18 @@ def run_stream(ctx, exe, cases, stream, shrink_budget=120):
         vlib.differential(ctx, exe, "loop", cases, lambda ops, out: None, stream + "-loopmodel", batch=20)
 
 
+def long_case(rng, iters):
+    """one qb_loop_run of `iters` iterations: 1-6 self-re-adding HIGH jobs, one or two self-re-adding
+    jobs at MED and at LOW (all for ever), nothing else"""
+    ops = ["info"]
+    i = 1
+    for p, k in ((loopgen.HIGH, rng.randint(1, 6)), (loopgen.MED, rng.randint(1, 2)), (loopgen.LOW, rng.randint(1, 2))):
+        for _ in range(k):
+            ops += ["script %d job_add %d %d" % (i, p, i), "job_add %d %d" % (p, i)]
+            i += 1
+    return ops + ["iterate"] * iters
+
+
 def run(ctx):
     ctx.rule = ("cases = seeded random workloads for the real loop: 1-16 initial actors + late joiners, each a "
                 "self-re-adding job, a zero-delay self-re-arming timer or an always-ready descriptor at HIGH/MED/LOW "
@@ -126,6 +138,12 @@ def run(ctx):
         run_stream(ctx, exe, vlib.read_case_file(ctx.replay), "replay")
         return
     run_stream(ctx, exe, vlib.corpus_cases("C10"), "corpus")
+    # long single runs of qb_loop_run: the rotation must not depend on how long the loop has been running
+    # (iteration counts beyond 2^15 and 2^16: a narrow or signed turn counter shows up here)
+    run_stream(ctx, exe, [("long%d" % i, long_case(ctx.rng, ctx.scale(70000, 300000))) for i in range(ctx.scale(2, 4))],
+               "long-run", shrink_budget=12)
+    if ctx.violations:
+        return
     n = ctx.scale(1500, 30000)
     cases = [("g%d" % i, loopgen.gen_c10_case(ctx.rng)) for i in range(n)]
     for lo in range(0, n, 1000):
